@@ -32,13 +32,13 @@ def spec_marginal(w, h, px, Rc, Rx, Dy):
     return xp.reshape(mu, (rc * rx, dy)), xp.reshape(Sy, (rc * rx, dy, dy))
 
 
-def _mk(kind, Rc, Rx, ctor_px):
+def _mk(kind, Rc, Rx, ctor_px, px_diag=False):
     def ob(w):
         xp = w.xp
         Dy = "Dy"
         Dx = "Dy" if kind.startswith("identity") else "Dx"
         h = SP.gen_cond_handle(w, kind, "c", Rc, Dy, Dx)
-        p_x, px = SP.gen_pdf(w, "x", Rx, Dx, ctor=ctor_px)
+        p_x, px = SP.gen_pdf(w, "x", Rx, Dx, ctor=ctor_px, diag=px_diag)     # px_diag: the prior is a GaussianDiagPDF
         diag = kind in ("diag", "identity-diag")
         if diag:
             # the diagonal kinds override only the constructor (and pointwise helpers): the method under contract is the
@@ -115,4 +115,28 @@ def _register():
                funcs=[f"conditional.{cls}.affine_marginal_transformation"])(_mk_refusal(kind))
 
 
+def _register_more():
+    # the prior may be any density class: a GaussianDiagPDF prior (a seeded type-dependent fast path was missed without it)
+    for kind in ("full", "identity", "identity-diag"):
+        cls = SP.COND_CLS[kind]
+        for (Rc, Rx) in LAYOUTS:
+            sorts = [s for s in (Rc, Rx) if s != 1] + ["Dy", "Ny"] + ([] if kind.startswith("identity") else ["Dx"])
+            REG.ob(f"{cls}.affine_marginal_transformation/R=({Rc},{Rx})/prior=GaussianDiagPDF", sorts=sorts,
+                   funcs=[f"conditional.{cls}.affine_marginal_transformation", "pdf.GaussianDiagPDF.__post_init__"],
+                   axioms=["G1 Gaussian integral"], lemmas=["GtvLemmas.det_add_mul_mul_transpose", "GtvLemmas.det_diagonal"])(
+                _mk(kind, Rc, Rx, "Sigma+Lambda+ld", True))
+    # size-one dimension sorts (a generic sort stands for sizes >= 2)
+    for unit in ("Dy", "Dx"):
+        for (Rc, Rx) in LAYOUTS:
+            sorts = [s for s in (Rc, Rx) if s != 1] + ["Dy", "Ny", "Dx"]
+            REG.ob(f"ConditionalGaussianPDF.affine_marginal_transformation/R=({Rc},{Rx})/{unit}=1", sorts=sorts, unit_sorts=[unit],
+                   funcs=["conditional.ConditionalGaussianPDF.affine_marginal_transformation"], axioms=["G1 Gaussian integral"],
+                   skip_clauses=(["hint/*", "integral/*"] if unit == "Dy" else []),
+                   lemmas=["GtvLemmas.det_add_mul_mul_transpose"])(_mk("full", Rc, Rx, "Sigma+Lambda+ld"))
+
+
 _register()
+_register_more()
+
+from . import condctor as _cc  # noqa: E402
+REG.include(_cc.REG, prefix="ctor")
